@@ -614,7 +614,7 @@ func (s *State) evalIndexRangeExpression(left object.Object, leftIdx, rightIdx a
 		str := left.(object.String).Value
 		return object.String{Value: str[l:r]}
 	case object.ARRAY:
-		return object.NewArray(object.Elements(left)[l:r])
+		return object.NewArray(object.Elements(left)[l:r:r]) // capacity clipped: slice + x must not overwrite left's elements after r.
 	case object.MAP:
 		return object.Range(left, l, r) // could call that one for all of them...
 	case object.NIL:
